@@ -97,7 +97,7 @@ func gen(g *GenCtx) {
 			case k < 13:
 				g.Op("hdr %d %d %d", r.Intn(2), Pick(r, []int{16, 128, 0x11, 0x90, 0}), Pick(r, []int{0, 1, 7, 8, 27, 28, 39, 40, 100}))
 			case k < 15 && !hidden:
-				g.Op("sni %s", Pick(r, []string{"empty", "one", "long", "binary", "star", "dns", "other", "empty"}))
+				g.Op("sni %s", Pick(r, []string{"empty", "one", "long", "binary", "star", "dns", "other", "empty", "type05", "type7f", "typeff", "ipv4", "ipv6"}))
 			case k < 17:
 				g.Op("r %d %d %d", Pick(r, []int{0, 1, 3, 4, 5, 8, 20, 36, 48, 820, 852, 1172, 1700, 4000, 65000}),
 					Pick(r, []int{1, 2, 3, 4, 5, 8, 9, 16, 128, 0x7f, 0xff}), r.Intn(1000))
@@ -363,6 +363,16 @@ func (w *world) exec(f []string) string {
 			name = certs.RawStringName("*")
 		case "dns":
 			name = certs.DNSName("host0.example")
+		case "type05":
+			name = certs.Name{Type: 0x05, Label: []byte("host0.example")}
+		case "type7f":
+			name = certs.Name{Type: 0x7f, Label: []byte("host0.example")}
+		case "typeff":
+			name = certs.Name{Type: 0xff, Label: []byte{}}
+		case "ipv4":
+			name = certs.Name{Type: certs.TypeIPv4Address, Label: []byte{10, 0, 0, 1}}
+		case "ipv6":
+			name = certs.Name{Type: certs.TypeIPv6Address, Label: make([]byte, 16)}
 		default:
 			name = certs.RawStringName("nobody.invalid")
 		}
@@ -470,25 +480,34 @@ func (w *world) exec(f []string) string {
 		for i, c := range w.est {
 			h := w.handles[i]
 			fine := true
-			if c.C.WriteMsg([]byte("ping")) != nil {
-				fine = false
-			}
-			for _, d := range c.Conn.Drain() {
-				w.sv.Deliver(d.Data, c.Local)
-			}
-			h.SetReadDeadline(time.Unix(1, 0))
-			if n, err := h.ReadMsg(buf); err != nil || string(buf[:n]) != "ping" {
-				fine = false
-			}
-			if h.WriteMsg([]byte("pong")) != nil {
-				fine = false
-			}
-			for _, d := range w.sv.Conn.Drain() {
-				c.Deliver(d.Data, tnet.ServerAddr)
-			}
-			c.C.SetReadDeadline(time.Unix(1, 0))
-			if n, err := c.C.ReadMsg(buf); err != nil || string(buf[:n]) != "pong" {
-				fine = false
+			// the server speaks first: its datagrams reach the client only if they are addressed
+			// to the client (junk must not have redirected the session)
+			for _, word := range []string{"pong", "ping", "pong2"} {
+				if word == "ping" {
+					if c.C.WriteMsg([]byte(word)) != nil {
+						fine = false
+					}
+					for _, d := range c.Conn.Drain() {
+						w.sv.Deliver(d.Data, c.Local)
+					}
+					h.SetReadDeadline(time.Unix(1, 0))
+					if n, err := h.ReadMsg(buf); err != nil || string(buf[:n]) != word {
+						fine = false
+					}
+					continue
+				}
+				if h.WriteMsg([]byte(word)) != nil {
+					fine = false
+				}
+				for _, d := range w.sv.Conn.Drain() {
+					if tnet.AddrIndex(d.Dst) == tnet.AddrIndex(c.Local) {
+						c.Deliver(d.Data, tnet.ServerAddr)
+					}
+				}
+				c.C.SetReadDeadline(time.Unix(1, 0))
+				if n, err := c.C.ReadMsg(buf); err != nil || string(buf[:n]) != word {
+					fine = false
+				}
 			}
 			if fine {
 				good++
